@@ -289,12 +289,15 @@ type Get struct {
 	Query  bool   `json:"query"` // use ParseQuery instead of ParseBasic
 }
 
-func getterMux() handler.Map {
+func getterMux(echoed *string) handler.Map {
 	return handler.Map{
 		"ok": func(ctx context.Context, req *jrpc2.Request) (any, error) {
 			return map[string]any{"fine": true, "n": 1.5}, nil
 		},
 		"echo": func(ctx context.Context, req *jrpc2.Request) (any, error) {
+			if echoed != nil {
+				*echoed = orNull(req.ParamString())
+			}
 			return json.RawMessage(orNull(req.ParamString())), nil
 		},
 		"fail": func(ctx context.Context, req *jrpc2.Request) (any, error) { return nil, errors.New("plain failure") },
@@ -328,7 +331,8 @@ func runGet(_ *testing.T, g Get) (v engine.Verdict) {
 	if g.Query {
 		opts.ParseRequest = jhttp.ParseQuery
 	}
-	gt := jhttp.NewGetter(getterMux(), opts)
+	echoed := ""
+	gt := jhttp.NewGetter(getterMux(&echoed), opts)
 	defer gt.Close()
 	req := httptest.NewRequest("GET", "/", nil)
 	req.URL = u
@@ -374,6 +378,11 @@ func runGet(_ *testing.T, g Get) (v engine.Verdict) {
 			if !refjson.Equal(body, []byte(`{"fine":true,"n":1.5}`)) {
 				return engine.Failf("C19/getter/result", "GET %q: body %s is not the handler's result", g.Target, body)
 			}
+		case "echo":
+			// the handler's result is the parameter text it was given
+			if !refjson.Equal(body, []byte(echoed)) {
+				return engine.Failf("C19/getter/result", "GET %q: body %s is not the handler's result %s", g.Target, body, echoed)
+			}
 		case "a/b":
 			if string(body) != `"nested"` {
 				return engine.Failf("C19/getter/result", "GET %q: body %s", g.Target, body)
@@ -411,6 +420,9 @@ type Work struct {
 	// TransportFailAt: the k-th HTTP round trip (1-based) fails with a transport
 	// error instead of yielding a response (hold mode: when it is released).
 	TransportFailAt int `json:"transport_fail_at,omitempty"`
+	// BodyFailAt: the k-th HTTP round trip yields a response whose body breaks off
+	// with a read error after its first bytes (the connection died after the header).
+	BodyFailAt int `json:"body_fail_at,omitempty"`
 	// Raw: the channel is used without a Client: CloseAfter requests are sent,
 	// nothing is received, and Close has to deal with all of them.
 	Raw bool `json:"raw,omitempty"`
@@ -446,7 +458,12 @@ type fakeHTTP struct {
 	fail500 bool
 	inDo    int
 	failAt  int
+	bodyAt  int
 }
+
+type errReader struct{}
+
+func (errReader) Read([]byte) (int, error) { return 0, errors.New("connection reset while reading the body") }
 
 func (f *fakeHTTP) Do(req *http.Request) (*http.Response, error) {
 	f.mu.Lock()
@@ -474,7 +491,11 @@ func (f *fakeHTTP) Do(req *http.Request) (*http.Response, error) {
 	f.mu.Lock()
 	f.bodies = append(f.bodies, n)
 	f.mu.Unlock()
-	res.Body = spyBody{Reader: res.Body, closed: n, mu: &f.mu}
+	var rd io.Reader = res.Body
+	if f.bodyAt > 0 && k == f.bodyAt {
+		rd = io.MultiReader(io.LimitReader(res.Body, 3), errReader{})
+	}
+	res.Body = spyBody{Reader: rd, closed: n, mu: &f.mu}
 	return res, nil
 }
 
@@ -542,7 +563,7 @@ func runWork(t *testing.T, w Work) (v engine.Verdict) {
 			srv.Wait()
 			// the same workload over jhttp.Channel against a Bridge
 			b := jhttp.NewBridge(workMux(), nil)
-			fh := &fakeHTTP{b: b, release: make(chan struct{}), hold: w.Hold, failAt: w.TransportFailAt}
+			fh := &fakeHTTP{b: b, release: make(chan struct{}), hold: w.Hold, failAt: w.TransportFailAt, bodyAt: w.BodyFailAt}
 			copts := &jhttp.ChannelOptions{Client: fh}
 			if w.Opts != "" {
 				saved := http.DefaultClient.Transport
@@ -623,7 +644,7 @@ func runWork(t *testing.T, w Work) (v engine.Verdict) {
 	if unclosed > 0 {
 		return engine.Failf("C19/channel/body-not-closed", "%d of %d HTTP response bodies were never closed (workload %+v)", unclosed, total, w)
 	}
-	if !w.Hold && !w.Raw && w.TransportFailAt == 0 {
+	if !w.Hold && !w.Raw && w.TransportFailAt == 0 && w.BodyFailAt == 0 {
 		if len(overHTTP) > len(overDirect) || (len(overHTTP) > 0 && strings.HasPrefix(overHTTP[len(overHTTP)-1], "call over a failing")) {
 			return engine.Failf("C19/channel/http-failure-ignored", "a call answered with HTTP status 500 reported success")
 		}
@@ -637,7 +658,10 @@ func runWork(t *testing.T, w Work) (v engine.Verdict) {
 	if w.TransportFailAt > 0 {
 		labels = append(labels, "transport-failure")
 	}
-	return engine.Verdict{NonTrivial: (w.Hold && w.CloseAfter > 0 && len(w.Ops) > 0) || w.Fail500 || w.TransportFailAt > 0, Labels: labels}
+	if w.BodyFailAt > 0 {
+		labels = append(labels, "body-read-failure")
+	}
+	return engine.Verdict{NonTrivial: (w.Hold && w.CloseAfter > 0 && len(w.Ops) > 0) || w.Fail500 || w.TransportFailAt > 0 || w.BodyFailAt > 0, Labels: labels}
 }
 
 func genWork(t *testing.T) func(*rapid.T) Work {
@@ -655,6 +679,9 @@ func genWork(t *testing.T) func(*rapid.T) Work {
 		w.Opts = rapid.SampledFrom([]string{"", "", "nil", "empty"}).Draw(t, "opts")
 		if n > 0 && rapid.IntRange(0, 3).Draw(t, "transportfail") == 0 {
 			w.TransportFailAt = rapid.IntRange(1, n).Draw(t, "failat")
+			w.Fail500 = false
+		} else if n > 0 && rapid.IntRange(0, 3).Draw(t, "bodyfail") == 0 {
+			w.BodyFailAt = rapid.IntRange(1, n).Draw(t, "bodyfailat")
 			w.Fail500 = false
 		}
 		return w
